@@ -148,6 +148,8 @@ MUTANTS = [
       "                        uploadresults.set_uri(readcap.to_string())", None),
     M("benign-done-flag-from-callback", OFF,
       "            return False # not done\n", "            return self._have == self._expected_size\n", None),
+    M("benign-string-replace-in-name", OFF,
+      "        si_s = si_b2a(storage_index).decode('ascii')\n", "        si_s = si_b2a(storage_index).decode('ascii').replace('=', '')\n", None),
     # -- vanished anchor
     M("vanish-start-reading", OFF, "    def _start_reading(self, res):", "    def _start_readingX(self, res):", "ANALYSIS-ERROR"),
 ]
